@@ -38,6 +38,7 @@ CLAIM = (
     "size, the mean of per-batch losses and gradients equals the full-batch values for all four loss types, also through the real "
     "reconstruct() loop, also with a grid or random validation split (epoch loss == loss over the training set, validation loss == loss over the validation set); equal seeds give bit-identical loss histories, a reset run repeats the fresh history after EVERY history of continue/reset calls up to depth 2/3 (with and without validation), different seeds differ."
     ' Further enumerated dimensions: the seed in every documented spelling (int, numpy Generator incl. MT19937 / Philox, torch Generator, magnitudes beyond 2**64) with and without reset=True in the first run, one Generator object held by two reconstructions and the caller (every interleaving of their continued runs), calls that are no reconstruction steps (to, save, device=) inserted at every position of a continued run, and two epochs in flight on one batcher (nested loops, zip).'
+    " Progress and settings dimensions: 12 epochs on one batcher, one 12-epoch call with learning rate 0, resets after runs that cross ten iterations, and runs whose settings change across a reset (learnable dataset on / off, schedulers whose constants depend on the iteration horizon; keyword arguments re-passed, omitted so that the stored ones are reused, or all named explicitly and compared with the same call on a fresh object)."
 )
 NOTE = (
     "Trusted: the Generator subclass really is what the library draws its orders from (checked: the yielded order equals the prescribed "
